@@ -93,7 +93,8 @@ def inputOverlaps (input : List Scaffold) (bait : Fragment) : R (Option OverlapR
     dictionaries hold every scaffold, and the index `buildIndex` of its rows, under its name -/
 theorem index_input_is_source (input : List Scaffold) :
     input.foldlM (fun d sc => Gen.Imp.IndexedAssembly_add_scaffold d.1 d.2 sc) ([], [])
-      = (input.foldlM (fun (seen : List Str) s => if seen.contains s.name then throw Err.value else pure (seen ++ [s.name])) []).map
+      = (input.foldlM (fun (seen : List Str) (s : Scaffold) =>
+            if seen.contains s.name then (throw Err.value : R (List Str)) else pure (seen ++ [s.name])) []).map
           (fun _ => (input.map (fun sc => (sc.name, sc)), input.map (fun sc => (sc.name, buildIndex sc.rows)))) :=
   ImpRemap.indexInput_eq input
 
@@ -152,15 +153,14 @@ example : absNamer { autosome_prefix := rmPrefix } = ({ autosomePrefix := rmPref
 /-- the source on the example, from the empty state: three results, the contig `a` held by two of them (the same object in both
     dictionaries); and the model, evaluated independently -/
 example : Gen.Imp.BuildAssembly_find_assembly_overlaps [] [] { autosome_prefix := rmPrefix } [] [] rmPtx 3 (inputOverlaps rmInput)
-    = .ok (rmStore1, rmHeap, rmNamer2, rmFound, rmMulti) := by decide +kernel
+    = .ok (rmStore1, rmHeap, rmNamer2, rmFound, rmMulti) := by rfl
 example : (findAssemblyOverlaps rmInput rmPtx
       { namer := { autosomePrefix := rmPrefix }, nextOid := 4, joinGap := some rmG200, err := 3 }).map
         (fun b => (b.store, b.namer, b.found, b.multi))
-    = .ok (rmStore1, absNamer rmNamer2, absFound rmHeap rmFound, rmMulti.map (·.1)) := by decide +kernel
+    = .ok (rmStore1, absNamer rmNamer2, absFound rmHeap rmFound, rmMulti.map (·.1)) := by rfl
 /-- an unknown scaffold name in the Pretext map: ValueError on both sides -/
 example : Gen.Imp.BuildAssembly_find_assembly_overlaps [] [] { autosome_prefix := rmPrefix } [] []
-      [{ name := "Scaffold_1".toList, rows := [.frag { rmP1 with name := ['s', '9'] }] }] 3 (inputOverlaps rmInput) = .error .value := by
-  decide +kernel
+      [{ name := "Scaffold_1".toList, rows := [.frag { rmP1 with name := ['s', '9'] }] }] 3 (inputOverlaps rmInput) = .error .value := by rfl
 
 /-! ### 3. `cut_remaining_overhangs` -/
 
@@ -184,11 +184,11 @@ theorem cut_remaining_refines (b : Build) (heap : List Found) (found multi : Lis
     exact ⟨ht, hb'⟩
 
 example : Coherent rmHeap rmFound rmMulti := by unfold Coherent; decide
-example : Gen.Imp.BuildAssembly_cut_remaining_overhangs rmStore1 4 rmHeap rmMulti 0 = .ok (rmStore2, 6, rmHeap, [], 1) := by
-  decide +kernel
-example : (cutRemaining { namer := absNamer rmNamer2, store := rmStore1, found := absFound rmHeap rmFound, multi := rmMulti.map (·.1),
-      nextOid := 4, joinGap := some rmG200, err := 3 }).map (fun b => (b.store, b.nextOid, b.cuts, b.multi))
-    = .ok (rmStore2, 6, 1, []) := by decide +kernel
+example : Gen.Imp.BuildAssembly_cut_remaining_overhangs rmStore1 4 rmHeap rmMulti 0 = .ok (rmStore2, 6, rmHeap, [], 1) := by rfl
+def rmBuild1 : Build :=
+  { namer := absNamer rmNamer2, store := rmStore1, found := absFound rmHeap rmFound, multi := [(['a'], 1, 100)], nextOid := 4,
+    joinGap := some rmG200, err := 3 }
+example : (cutRemaining rmBuild1).map (fun b => (b.store, b.nextOid, b.cuts, b.multi)) = .ok (rmStore2, 6, 1, []) := by rfl
 
 /-! ### 4. `remap_to_input_assembly` -/
 
@@ -306,7 +306,7 @@ example : Gen.Imp.BuildAssembly_remap_to_input_assembly 5 [] (remapStart rmInput
       { autosome_prefix := rmPrefix } [] [] 0 rmPtx rmInput 3 rmG200 (inputOverlaps rmInput)
     = .ok (rmStore2, 6,
         [({ name := ['s', '1'], rows := [.frag rmB], rank := 3 }, some (.frag rmA, [.gap rmG10]))], [0],
-        rmHeap, { rmNamer2 with current_scaffold_name := some ['b'], current_rank := some 3 }, rmFound, [], 1) := by decide +kernel
+        rmHeap, { rmNamer2 with current_scaffold_name := some ['b'], current_rank := some 3 }, rmFound, [], 1) := by rfl
 /-- … and the model on the same input, evaluated independently: the `Build` that result stands for -/
 example : remapToInput rmInput rmPtx rmPrefix (some rmG200) 3
     = .ok { namer := absNamer { rmNamer2 with current_scaffold_name := some ['b'], current_rank := some 3 }, store := rmStore2,
@@ -317,7 +317,7 @@ example : remapToInput rmInput rmPtx rmPrefix (some rmG200) 3
         (fun b => (b.namer, b.store, b.found, b.multi, b.extra, b.cuts, b.nextOid, b.joinGap, b.err))
       = .ok (absNamer { rmNamer2 with current_scaffold_name := some ['b'], current_rank := some 3 }, rmStore2,
              absFound rmHeap rmFound, [], [({ name := ['s', '1'], rows := [.frag rmB], rank := 3 }, some (rmA, [rmG10]))],
-             1, 6, some rmG200, 3) := by decide +kernel
+             1, 6, some rmG200, 3) := by rfl
   cases hr : remapToInput rmInput rmPtx rmPrefix (some rmG200) 3 with
   | error e => rw [hr] at h; cases h
   | ok b =>
@@ -331,9 +331,9 @@ example : remapToInput rmInput rmPtx rmPrefix (some rmG200) 3
 /-- a Pretext fragment on a scaffold the input does not have: ValueError on both sides -/
 example : Gen.Imp.BuildAssembly_remap_to_input_assembly 5 [] 4 [] { autosome_prefix := rmPrefix } [] [] 0
       [{ name := "Scaffold_1".toList, rows := [.frag { rmP1 with name := ['s', '9'] }] }] rmInput 3 rmG200 (inputOverlaps rmInput)
-    = .error .value := by decide +kernel
+    = .error .value := by rfl
 example : (remapToInput rmInput [{ name := "Scaffold_1".toList, rows := [.frag { rmP1 with name := ['s', '9'] }] }] rmPrefix
-      (some rmG200) 3).map (fun b => b.cuts) = .error .value := by decide +kernel
+      (some rmG200) 3).map (fun b => b.cuts) = .error .value := by rfl
 
 /-! ### the point of it all: `remap_partitions` for the state the SOURCE's phase 1 produces -/
 
